@@ -997,6 +997,23 @@ def tool_cases(tier, seed):
                             add(cmd, ['-p', k, n, m], None, sd=sd)
                     if m == 2:
                         add(cmd, [k, n, m], None)       # no --seed: generator state still equal
+    # ---- randomness both while parsing (random graph argument) and while
+    # building (random charges / random default graph), with every seed of a
+    # small alphabet that includes 0: both tools must restart the generator
+    # at the same points
+    for sd in (0, 1, 5):
+        for g in (S('gnm', 5, 6), S('gnp', 4, '.5'), S('gnd', 6, 3),
+                  S('gnp', 5, '.5', 'plantclique', 3, 'addedges', 1)):
+            for charge in ('random', 'randomodd', 'randomeven', 'first'):
+                add('tseitin', [charge] + g, None, sd=sd)
+        for g in (S('glrd', 4, 4, 2), S('glrm', 3, 4, 6), S('regular', 4, 4, 2, 'addedges', 2)):
+            add('subsetcard', g, None, sd=sd)
+            add('php', g, None, sd=sd)
+        add('tseitin', [5, 2], None, sd=sd)
+        add('op', [5, 2], None, sd=sd)
+        add('subsetcard', [4, 2], None, sd=sd)
+        add('php', [4, 4, 2], None, sd=sd)
+        add('pitfall', [4, 2, 2, 2, 2], None, sd=sd)
     # VERIF_SEED rotates a few additional mid-size instances
     extra = [('php', [5, 4], ('php', 5, 4, False, False)), ('count', [7, 2], ('count', 7, 2)),
              ('parity', [7], ('count', 7, 2)), ('op', [5], ('op', 5, False, False, False, None)),
